@@ -19,7 +19,10 @@ const concRule = "one case = one plan of 2-4 mocker tasks (own builder, disjoint
 
 const spaceRule = "one case = one process: 1-4 requester tasks issue seeded Acquire+Write+execute requests (sizes 0, 1-256, page size +-1, 2^48, x8 variants up to exhaustion of the reserve) with the mmap path failing always / never / on a seeded half of the calls (errno injected at the mmap seam) and preemption at stub.holder.loaded between the bump pointer's load and add; non-trivial = at least one context switch or injected fault; distinct = hash of (operations, context-switch sequence, fired faults)"
 
+const memRule = "one case = one plan in one of three configurations: (arena) 1-2 writer tasks call memory.WriteTo with seeded offset/length 1..9000 into a 6-page assembly arena of callable cells (small writes, writes straddling page boundaries, multi-page writes, 13-byte writes) while 1-2 caller tasks scheduled at mem.write.rwx / mem.write.copied execute cells on the pages being written; (faults) one writer with errno injected at the mprotect seam; (sweep) patch.Ptr + Apply + Unpatch over 20-200 real functions of linked-but-never-executed library packages and the zoo with a full .text diff and /proc/self/maps check around every write; non-trivial = a context switch or an injected fault occurred, or the plan is a sweep; distinct = hash of (operations, context-switch sequence, fired faults)"
+
 func init() {
+	props["C14"] = propCfg{World: "mem", Level: "exploration", Quick: 2500, Thorough: 200000, Chunk: 50, Rule: memRule, Assume: commonAssume}
 	props["C20"] = propCfg{World: "space", Level: "fault_enumeration", Quick: 1500, Thorough: 150000, RaceQ: 300, RaceT: 20000, PerProc: true, Rule: spaceRule, Assume: commonAssume}
 	props["C11"] = propCfg{World: "conc", Level: "exploration", Quick: 3000, Thorough: 250000, RaceQ: 500, RaceT: 40000, Chunk: 50, Rule: concRule, Assume: commonAssume}
 	props["C07"] = propCfg{World: "iface", Level: "exploration", Quick: 4000, Thorough: 300000, Chunk: 100, Rule: ifaceRule, Assume: commonAssume}
